@@ -83,7 +83,7 @@ fn judge(out: &mut Out, cfg: &HConfig, d: &mut Driver, cases: Vec<Case>) {
 
 pub fn run(ctx: &Ctx, out: &mut Out) {
     let mut rng: Rng = ctx.rng("C12");
-    crate::inproc::install_logger(log::LevelFilter::Warn, false);
+    crate::inproc::install_shard_logger(ctx.shard, out);
     if let Some(r) = &ctx.replay {
         crate::c09::replay_history(out, "C12", r);
         return;
